@@ -199,20 +199,28 @@ Section LitRange.
   Hypothesis hex_radix_nonneg : 0 <= hex_radix cfg.
   Hypothesis oct_radix_nonneg : 0 <= oct_radix cfg.
 
-  Lemma decimal_literal_range s v r : decimal_literal cfg s = Some (v, r) -> inr v.
-  Proof.
-    unfold decimal_literal. destruct s as [|c s]; [congruence|].
-    destruct (in_class (dec_first cfg) c); [|congruence].
-    destruct (take_while (dec_rest cfg) s) as [ds rest].
-    destruct (u64_parse_cast (c :: ds)) as [w|] eqn:E; [|congruence].
-    intros H; injection H as <- _. eapply u64_parse_cast_range; eassumption.
-  Qed.
   Lemma shell_digits_range radix s : forall acc v, inr acc -> shell_digits cfg radix acc s = Some v -> inr v.
   Proof.
     induction s as [|c s IH]; intros acc v Hacc; cbn [shell_digits].
     - intros H; injection H as <-. assumption.
     - destruct (dmap_val _ c) as [d|]; [|congruence].
       destruct (d >=? radix); [congruence|]. apply IH. apply wadd_range.
+  Qed.
+  Lemma pslm_range s radix v : parse_shell_literal_number cfg s radix = Some v -> inr v.
+  Proof.
+    unfold parse_shell_literal_number. destruct (_ && _)%bool; [|congruence].
+    apply shell_digits_range. unfold inr, M63; lia.
+  Qed.
+  Lemma decimal_literal_range s v r : decimal_literal cfg s = Some (v, r) -> inr v.
+  Proof.
+    unfold decimal_literal. destruct s as [|c s]; [congruence|].
+    destruct (in_class (dec_first cfg) c); [|congruence].
+    destruct (take_while (dec_rest cfg) s) as [ds rest].
+    destruct (dec_wrap cfg).
+    - destruct (parse_shell_literal_number cfg (c :: ds) 10) as [w|] eqn:E; [|congruence].
+      intros H; injection H as <- _. eapply pslm_range; eassumption.
+    - destruct (u64_parse_cast (c :: ds)) as [w|] eqn:E; [|congruence].
+      intros H; injection H as <- _. eapply u64_parse_cast_range; eassumption.
   Qed.
   Theorem literal_number_range s v r : literal_number cfg s = Some (v, r) -> inr v.
   Proof.
@@ -222,24 +230,28 @@ Section LitRange.
       destruct (decimal_literal cfg s) as [[radix [|c s1]]|]; try congruence.
       destruct (N.eqb c (radix_sep cfg)); [|congruence].
       destruct (take_while (radix_digits cfg) s1) as [[|d ds] rest]; [congruence|].
-      unfold parse_shell_literal_number in E1.
-      destruct (_ && _)%bool; [|congruence].
-      destruct (shell_digits cfg (as_u64 radix) 0 (d :: ds)) as [w|] eqn:E; [|congruence].
-      injection E1 as <- _. eapply shell_digits_range; [|eassumption]. unfold inr, M63; lia. }
+      destruct (parse_shell_literal_number cfg (d :: ds) (as_u64 radix)) as [w|] eqn:E; [|congruence].
+      injection E1 as <- _. eapply pslm_range; eassumption. }
     destruct (lit_hex cfg s) as [[v2 r2]|] eqn:E2.
     { intros H; injection H as <- _. unfold lit_hex in E2.
       destruct s as [|c0 [|c1 s2]]; try congruence.
       destruct (_ && _)%bool; [|congruence].
       destruct (take_while (hex_digits cfg) s2) as [ds rest].
-      destruct (i64_from_str_radix (hex_radix cfg) ds) as [w|] eqn:E; [|congruence].
-      injection E2 as <- _. eapply i64_from_str_radix_range; [exact hex_radix_nonneg|exact E]. }
+      destruct (hex_wrap cfg).
+      - destruct (parse_shell_literal_number cfg ds (hex_radix cfg)) as [w|] eqn:E; [|congruence].
+        injection E2 as <- _. eapply pslm_range; eassumption.
+      - destruct (i64_from_str_radix (hex_radix cfg) ds) as [w|] eqn:E; [|congruence].
+        injection E2 as <- _. eapply i64_from_str_radix_range; [exact hex_radix_nonneg|exact E]. }
     destruct (lit_oct cfg s) as [[v3 r3]|] eqn:E3.
     { intros H; injection H as <- _. unfold lit_oct in E3.
       destruct s as [|c0 s1]; try congruence.
       destruct (N.eqb c0 (oct_lead cfg)); [|congruence].
       destruct (take_while (oct_digits cfg) s1) as [ds rest].
-      destruct (i64_from_str_radix (oct_radix cfg) (c0 :: ds)) as [w|] eqn:E; [|congruence].
-      injection E3 as <- _. eapply i64_from_str_radix_range; [exact oct_radix_nonneg|exact E]. }
+      destruct (oct_wrap cfg).
+      - destruct (parse_shell_literal_number cfg (c0 :: ds) (oct_radix cfg)) as [w|] eqn:E; [|congruence].
+        injection E3 as <- _. eapply pslm_range; eassumption.
+      - destruct (i64_from_str_radix (oct_radix cfg) (c0 :: ds)) as [w|] eqn:E; [|congruence].
+        injection E3 as <- _. eapply i64_from_str_radix_range; [exact oct_radix_nonneg|exact E]. }
     apply decimal_literal_range.
   Qed.
 End LitRange.
@@ -379,9 +391,9 @@ Section ParseRange.
     apply infix_loop_ok; [exact IH|]. eapply first_pre_ok; eassumption.
   Qed.
 
-  Theorem parse_opt_ok s e : parse_opt I lx tbl s = Some e -> lits_inr e.
+  Theorem parse_opt_ok b0 s e : parse_opt I lx tbl b0 s = Some e -> lits_inr e.
   Proof.
-    unfold parse_opt, parse_full. destruct (lx_empty lx s).
+    unfold parse_opt, parse_full. destruct (lx_empty lx (if b0 then lx_ws lx s else s)).
     - intros H; injection H as <-. cbn. unfold inr, M63. lia.
     - destruct (parse I lx tbl _ 0 _) as [e1 rest| | |] eqn:E; try congruence.
       destruct (lx_empty lx (lx_ws lx rest)); [|congruence].
@@ -398,13 +410,12 @@ Section CharLvalue.
     intros Hexpr. unfold lvalue. destruct (variable_name cfg s) as [[x0 rest]|]; [|congruence].
     destruct rest as [|c r1]; [intros H; injection H as <- <- _; exact I|].
     destruct (N.eqb c 91); [|intros H; injection H as <- <- _; exact I].
-    destruct (expr r1) as [ie r2| | |] eqn:Ee; try congruence.
-    - destruct r2 as [|c2 r2]; [intros H; injection H as <- <- _; exact I|].
+    destruct (expr _) as [ie r2| | |] eqn:Ee; try congruence.
+    - destruct (if subscript_ws cfg then skip_ws cfg r2 else r2) as [|c2 r2']; [intros H; injection H as <- <- _; exact I|].
       destruct (N.eqb c2 93); intros H; injection H as <- <- _; [|exact I].
       eapply Hexpr; eassumption.
     - intros H; injection H as <- <- _. exact I.
   Qed.
-
 End CharLvalue.
 
 (** the parser of brush (regenerated table and lexical classes) only produces i64 literals *)
